@@ -1,14 +1,17 @@
-/- Line-protocol driver for the C08 model (ForML.Model.DslEq).
+/- Line-protocol driver for the C08 model (ForML.Model.DslIdent over the hash model of ForML.Model.DslEq).
 
-   (inthash n)          → pyIntHash n
-   (eqf A B)            → (eq <true|false|raises> <hashes equal> <A survives pickling>)   features
-   (eqs A B)            → …                                                              sources
-   (eqk A B)            → …                                                              kinds
+   (inthash n)              → pyIntHash n
+   (eqf A B)                → (eq <true|false|raises> <hashes agree> <A survives pickling>)   features
+   (eqs A B)                → …                                                              sources
+   (eqk A B)                → …                                                              kinds
+   (dictf (K0 K1 …) K)      → (hit i) | none | raises     lookup of K in {K0: 0, K1: 1, …}    features as keys
+   (dicts (K0 K1 …) K)      → …                                                              sources as keys
    every line may be wrapped as (let ((x sexp) …) body), `$x` atoms are substituted.
    Hashes are evaluated in the free environment (`freeEnv`): equal only where congruence and `pyIntHash` force it. -/
 import ForML.Model.Sexp
 import ForML.Model.Dsl
 import ForML.Model.DslEq
+import ForML.Model.DslIdent
 open ForML ForML.Dsl
 
 def eqResSexp : EqRes → Sexp
@@ -16,6 +19,16 @@ def eqResSexp : EqRes → Sexp
   | some b => Sexp.ofBool b
 
 def answer (r : EqRes) (h p : Bool) : Sexp := .list [.atom "eq", eqResSexp r, Sexp.ofBool h, Sexp.ofBool p]
+
+/-- the float-against-int comparison never decides an outcome (`C08_lit_iff`) -/
+def cf0 : Lit → Lit → Bool := fun _ _ => false
+
+def lookupSexp : Except Unit (Option Nat) → Sexp
+  | .error _ => .atom "raises"
+  | .ok none => .atom "none"
+  | .ok (some i) => .list [.atom "hit", Sexp.ofInt (Int.ofNat i)]
+
+def indexed {K : Type} (ks : List K) : List (K × Nat) := ks.zip (List.range ks.length)
 
 def stepC08 (line : Sexp) : Sexp :=
   match expandLet line with
@@ -29,17 +42,25 @@ def stepC08 (line : Sexp) : Sexp :=
     | .list [.atom "eqf", a, b] =>
       match Feature.ofSexp a, Feature.ofSexp b with
       | some a, some b =>
-        answer (Feature.implEq freeEnv a b) (decide (a.H freeEnv = b.H freeEnv)) (decide (a.pickle = some a))
+        answer (Feature.identEq cf0 a b) (Feature.hashAgree freeEnv a b) (decide (a.repickle = some a))
       | _, _ => .atom "bad-op"
     | .list [.atom "eqs", a, b] =>
       match Source.ofSexp a, Source.ofSexp b with
       | some a, some b =>
-        answer (Source.implEq freeEnv a b) (decide (a.H freeEnv = b.H freeEnv)) (decide (a.pickle = some a))
+        answer (Source.identEq cf0 a b) (Source.hashAgree freeEnv a b) (decide (a.repickle = some a))
       | _, _ => .atom "bad-op"
     | .list [.atom "eqk", a, b] =>
       match Kind.ofSexp a, Kind.ofSexp b with
       | some a, some b =>
-        answer (some (Kind.implEq a b)) (decide (a.H freeEnv = b.H freeEnv)) (decide (a.pickle = some a))
+        answer (some (Kind.implEq a b)) (decide (a.H freeEnv = b.H freeEnv)) (decide (a.repickle = some a))
+      | _, _ => .atom "bad-op"
+    | .list [.atom "dictf", .list ks, k] =>
+      match ks.mapM Feature.ofSexp, Feature.ofSexp k with
+      | some ks, some k => lookupSexp (dictGet (fun f => f.H freeEnv) (Feature.identEq cf0) (indexed ks) k)
+      | _, _ => .atom "bad-op"
+    | .list [.atom "dicts", .list ks, k] =>
+      match ks.mapM Source.ofSexp, Source.ofSexp k with
+      | some ks, some k => lookupSexp (dictGet (fun s => s.H freeEnv) (Source.identEq cf0) (indexed ks) k)
       | _, _ => .atom "bad-op"
     | _ => .atom "bad-op"
 
